@@ -687,6 +687,112 @@ func canonIfs(fset *token.FileSet, pk *packages.Package) int {
 		}
 		return out
 	}
+	// a local that only names the condition of the if statement that follows it is put back into the condition:
+	//	ok := a && b; if ok { … }   →   if a && b { … }
+	// (one definition, one use, nothing in between; the defining expression is evaluated at the same point, and — unless it
+	// is call-free — as the first operand of the condition, so the order of evaluation is unchanged)
+	uses := map[types.Object]int{}
+	for _, o := range pk.TypesInfo.Uses {
+		uses[o]++
+	}
+	callFree := func(e ast.Expr) bool {
+		ok := true
+		ast.Inspect(e, func(x ast.Node) bool {
+			switch y := x.(type) {
+			case *ast.CallExpr:
+				if tv, isT := pk.TypesInfo.Types[y.Fun]; isT && tv.IsType() {
+					return true
+				}
+				if id, isID := y.Fun.(*ast.Ident); isID && (id.Name == "len" || id.Name == "cap") {
+					return true
+				}
+				ok = false
+			case *ast.FuncLit:
+				ok = false
+			case *ast.UnaryExpr:
+				if y.Op == token.ARROW {
+					ok = false
+				}
+			}
+			return ok
+		})
+		return ok
+	}
+	var firstLeaf func(e ast.Expr) ast.Expr
+	firstLeaf = func(e ast.Expr) ast.Expr {
+		switch x := e.(type) {
+		case *ast.ParenExpr:
+			return firstLeaf(x.X)
+		case *ast.UnaryExpr:
+			if x.Op == token.NOT {
+				return firstLeaf(x.X)
+			}
+		case *ast.BinaryExpr:
+			return firstLeaf(x.X)
+		}
+		return e
+	}
+	condLocals := func(list []ast.Stmt) []ast.Stmt {
+		var out []ast.Stmt
+		for i := 0; i < len(list); i++ {
+			st := list[i]
+			if as, ok := st.(*ast.AssignStmt); ok && as.Tok == token.DEFINE && len(as.Lhs) == 1 && len(as.Rhs) == 1 && i+1 < len(list) {
+				if is, ok := list[i+1].(*ast.IfStmt); ok && is.Init == nil {
+					if id, ok := as.Lhs[0].(*ast.Ident); ok && id.Name != "_" {
+						obj := pk.TypesInfo.Defs[id]
+						if obj != nil && uses[obj] == 1 {
+							// the single use must be in the condition
+							var use *ast.Ident
+							ast.Inspect(is.Cond, func(x ast.Node) bool {
+								if u, ok := x.(*ast.Ident); ok && pk.TypesInfo.Uses[u] == obj {
+									use = u
+								}
+								return true
+							})
+							if use != nil && (callFree(as.Rhs[0]) || firstLeaf(is.Cond) == ast.Expr(use)) {
+								rhs := as.Rhs[0]
+								var repl ast.Expr = rhs
+								switch rhs.(type) {
+								case *ast.Ident, *ast.SelectorExpr, *ast.CallExpr, *ast.ParenExpr, *ast.BasicLit, *ast.IndexExpr:
+								default:
+									p := &ast.ParenExpr{Lparen: rhs.Pos(), X: rhs, Rparen: rhs.End()}
+									pk.TypesInfo.Types[p] = pk.TypesInfo.Types[rhs]
+									repl = p
+								}
+								if is.Cond == ast.Expr(use) {
+									is.Cond = repl
+								} else {
+									replaceExprs(is.Cond, func(e ast.Expr) ast.Expr {
+										if e == ast.Expr(use) {
+											return repl
+										}
+										return nil
+									})
+								}
+								n++
+								continue // the definition is dropped
+							}
+						}
+					}
+				}
+			}
+			out = append(out, st)
+		}
+		return out
+	}
+	for _, f := range pk.Syntax {
+		ast.Inspect(f, func(x ast.Node) bool {
+			switch b := x.(type) {
+			case *ast.BlockStmt:
+				b.List = condLocals(b.List)
+			case *ast.CaseClause:
+				b.Body = condLocals(b.Body)
+			case *ast.CommClause:
+				b.Body = condLocals(b.Body)
+			}
+			return true
+		})
+	}
 	for _, f := range pk.Syntax {
 		ast.Inspect(f, func(x ast.Node) bool {
 			switch b := x.(type) {
